@@ -2,7 +2,8 @@
    scaffold that the rewriter adds, checking on the way that the pristine copies kept in guard-off and fallback branches
    erase to the same code as the instrumented branch.  It is bottom-up: erase (T k sc fs) = post k sc (erased children);
    it returns a LIST of trees because a statement may erase to zero or several statements; None = unrecognised shape
-   (fail closed).  `norm` makes the three deliberate source changes on a source tree.  No proofs in this file. *)
+   (fail closed).  `norm` makes the deliberate source changes on a source tree (slices as calls of `slice`, a bare except as BaseException,
+   declarations hoisted, a `pass` for a function body that has nothing else).  No proofs in this file. *)
 From Coq Require Import List ZArith NArith Bool.
 Import ListNotations.
 From PyccoloV Require Import gen.PyAst gen.Ids gen.Events model.Tree.
@@ -58,10 +59,12 @@ Definition is_emit_of (e : event) (t : tree) : bool :=
 Definition is_decl (t : tree) : bool := match t with T k _ _ => N.eqb k kGlobal || N.eqb k kNonlocal | _ => false end.
 Definition is_docstring (t : tree) : bool :=
   match t with T k [] [[T kc (SStr _ :: _) _]] => N.eqb k kExpr && N.eqb kc kConstant | _ => false end.
+(* a function body left with nothing but a docstring and / or declarations is given a `pass` (it is bracketed like any other body) *)
+Definition or_pass (l : list tree) : list tree := match l with [] => [T kPass [] []] | _ => l end.
 Definition hoist (body : list tree) : list tree :=
   match body with
-  | d :: rest => if is_docstring d then d :: filter is_decl rest ++ filter (fun s => negb (is_decl s)) rest
-                 else filter is_decl body ++ filter (fun s => negb (is_decl s)) body
+  | d :: rest => if is_docstring d then d :: filter is_decl rest ++ or_pass (filter (fun s => negb (is_decl s)) rest)
+                 else filter is_decl body ++ or_pass (filter (fun s => negb (is_decl s)) body)
   | [] => []
   end.
 Definition hoist_loop (body : list tree) : list tree := filter is_decl body ++ filter (fun s => negb (is_decl s)) body.
